@@ -64,6 +64,8 @@ func contractServes(c *Contract, p string) bool {
 // generate builds every obligation that serves property p.
 func (w *World) generate(p string) *checkResult {
 	res := &checkResult{prop: p}
+	w.curProp = p
+	defer func() { w.curProp = "" }()
 	var names []string
 	for n := range w.contracts {
 		names = append(names, n)
